@@ -899,7 +899,7 @@ class HistogramBase(abc.ABC):
         return new
 
     def __radd__(self, other):
-        if other == 0:  # Enable sum()
+        if np.isscalar(other) and other == 0:  # Enable sum()
             return self
         return self + other
 
